@@ -94,10 +94,10 @@ theorem C01_core_defined (prog : Prog) (depth fuel : Nat) (env : Src.Env) (benv 
 
 /-- `x + 1u8` with `x = 255`: the source semantics fail with Overflow, and so does the bit-level
 evaluation; with `x = 7` both give 8 -/
-example : bitExpr ⟨callAt ⟨[], [], []⟩ 0, fun _ => none⟩ [("x", .s (.int .u8), enc .u8 255)] (.bin .add (.int .u8) (.var "x") (.int 1 .u8)) =
+example : bitExpr ⟨callAt ⟨[], [], [], []⟩ 0, fun _ => none⟩ [("x", .s (.int .u8), enc .u8 255)] (.bin .add (.int .u8) (.var "x") (.int 1 .u8)) =
     some (.s (.int .u8), enc .u8 0, some .overflow, [("x", .s (.int .u8), enc .u8 255)]) := by rfl
 
-example : bitExpr ⟨callAt ⟨[], [], []⟩ 0, fun _ => none⟩ [("x", .s (.int .u8), enc .u8 7)] (.bin .add (.int .u8) (.var "x") (.int 1 .u8)) =
+example : bitExpr ⟨callAt ⟨[], [], [], []⟩ 0, fun _ => none⟩ [("x", .s (.int .u8), enc .u8 7)] (.bin .add (.int .u8) (.var "x") (.int 1 .u8)) =
     some (.s (.int .u8), enc .u8 8, none, [("x", .s (.int .u8), enc .u8 7)]) := by rfl
 
 /-- `if c { x = 1u8; } else { }` followed by `x`: the variable is merged by the condition -/
@@ -105,16 +105,16 @@ def C01_example_body : StmtList :=
   .cons (.expr (.ite (.var "c") (.block (.cons (.assign "x" .nil (.int 1 .u8)) .nil)) (.block .nil)))
     (.cons (.expr (.var "x")) .nil)
 
-example : bitStmts ⟨callAt ⟨[], [], []⟩ 0, fun _ => none⟩ [("c", .s .bool, [true]), ("x", .s (.int .u8), enc .u8 7)] C01_example_body =
+example : bitStmts ⟨callAt ⟨[], [], [], []⟩ 0, fun _ => none⟩ [("c", .s .bool, [true]), ("x", .s (.int .u8), enc .u8 7)] C01_example_body =
     some (.s (.int .u8), enc .u8 1, none, [("c", .s .bool, [true]), ("x", .s (.int .u8), enc .u8 1)]) := by rfl
 
-example : bitStmts ⟨callAt ⟨[], [], []⟩ 0, fun _ => none⟩ [("c", .s .bool, [false]), ("x", .s (.int .u8), enc .u8 7)] C01_example_body =
+example : bitStmts ⟨callAt ⟨[], [], [], []⟩ 0, fun _ => none⟩ [("c", .s .bool, [false]), ("x", .s (.int .u8), enc .u8 7)] C01_example_body =
     some (.s (.int .u8), enc .u8 7, none, [("c", .s .bool, [false]), ("x", .s (.int .u8), enc .u8 7)]) := by rfl
 
 /-- a call: `fn inc(a: u8) -> u8 { a + 1u8 }` and the body `inc(x)`; with `x = 255` the callee's overflow is the
 caller's panic, and inlining to depth 0 is outside the fragment -/
 def C01_example_prog : Prog :=
-  ⟨[⟨"inc", [("a", .int .u8)], .int .u8, .cons (.expr (.bin .add (.int .u8) (.var "a") (.int 1 .u8))) .nil⟩], [], []⟩
+  ⟨[⟨"inc", [("a", .int .u8)], .int .u8, .cons (.expr (.bin .add (.int .u8) (.var "a") (.int 1 .u8))) .nil⟩], [], [], []⟩
 
 example : bitBody C01_example_prog [("x", .s (.int .u8), enc .u8 7)] (.cons (.expr (.call "inc" (.cons (.var "x") .nil))) .nil) =
     some (.s (.int .u8), enc .u8 8, none, [("x", .s (.int .u8), enc .u8 7)]) := by rfl
